@@ -33,6 +33,7 @@ import (
 	corev1alpha1 "package-operator.run/apis/core/v1alpha1"
 	"package-operator.run/internal/adapters"
 	"package-operator.run/internal/constants"
+	"package-operator.run/internal/controllers/objectdeployments"
 	"package-operator.run/internal/controllers/objectsets"
 	"package-operator.run/internal/packages"
 	"package-operator.run/internal/utils"
@@ -959,5 +960,135 @@ func init() {
 			}
 		}
 		return pairs, nil
+	})
+}
+
+// ------------------------------------------------------------------ sliceobjects
+
+// sliceobjects: what the ObjectDeployment controller's archive reconciler sees as the objects of a revision
+// (real defaultObjectSetGetter.getObjectsIncludingSlices), for the sliced ObjectSet and for its inline twin.
+type sliceObjectsScenario struct {
+	Set    aSet     `json:"set"`    // as stored: inline objects only
+	Slices [][]int  `json:"refs"`   // slice names per phase
+	Store  []aSlice `json:"slices"` // the slices that exist
+	Inline aSet     `json:"inline"` // the twin with the objects inline
+}
+
+type sliceObjectsObs struct {
+	Err    string `json:"err,omitempty"`
+	Keys   []aKey `json:"keys"`
+	Inline []aKey `json:"inline"`
+}
+
+func idKey(id string) aKey {
+	var p [4]string
+	n := 0
+	for _, part := range splitN(id, '/', 4) {
+		p[n] = part
+		n++
+	}
+	av := p[0] + "/v1"
+	if p[0] == "" {
+		av = "v1"
+	}
+	return aKey{gkOf(av, p[1]), num("ns", p[2]), num("n", p[3])}
+}
+
+func splitN(s string, sep byte, n int) []string {
+	out := []string{}
+	for len(out) < n-1 {
+		i := -1
+		for j := 0; j < len(s); j++ {
+			if s[j] == sep {
+				i = j
+				break
+			}
+		}
+		if i < 0 {
+			break
+		}
+		out = append(out, s[:i])
+		s = s[i+1:]
+	}
+	return append(out, s)
+}
+
+func accessorOf(scheme *runtime.Scheme, a aSet, refs [][]int) (adapters.ObjectSetAccessor, error) {
+	m, err := a.concrete(scheme)
+	if err != nil {
+		return nil, err
+	}
+	if refs != nil {
+		phases, _, _ := unstructured.NestedSlice(m, "spec", "phases")
+		for i := range phases {
+			if i >= len(refs) || len(refs[i]) == 0 {
+				continue
+			}
+			names := []any{}
+			for _, n := range refs[i] {
+				names = append(names, "n"+strconv.Itoa(n))
+			}
+			phases[i].(map[string]any)["slices"] = names
+		}
+		if err := unstructured.SetNestedSlice(m, phases, "spec", "phases"); err != nil {
+			return nil, err
+		}
+	}
+	if a.Kind == 2 {
+		o := &corev1alpha1.ClusterObjectSet{}
+		if err := runtime.DefaultUnstructuredConverter.FromUnstructured(m, o); err != nil {
+			return nil, err
+		}
+		return &adapters.ClusterObjectSetAdapter{ClusterObjectSet: *o}, nil
+	}
+	o := &corev1alpha1.ObjectSet{}
+	if err := runtime.DefaultUnstructuredConverter.FromUnstructured(m, o); err != nil {
+		return nil, err
+	}
+	return &adapters.ObjectSetAdapter{ObjectSet: *o}, nil
+}
+
+func init() {
+	register("sliceobjects", func(raw json.RawMessage) (any, error) {
+		var sc sliceObjectsScenario
+		if err := json.Unmarshal(raw, &sc); err != nil {
+			return nil, err
+		}
+		scheme := newScheme()
+		sl := NewStore(scheme, newMapper())
+		for _, a := range sc.Store {
+			m, err := a.concrete(a.NS == 0)
+			if err != nil {
+				return nil, err
+			}
+			sl.RawPut(m, false)
+		}
+		obs := sliceObjectsObs{Keys: []aKey{}, Inline: []aKey{}}
+		acc, err := accessorOf(scheme, sc.Set, sc.Slices)
+		if err != nil {
+			return nil, err
+		}
+		ids, err := objectdeployments.VerifObjectsIncludingSlices(context.Background(), acc, sl)
+		if err != nil {
+			obs.Err = errClass(errors.Unwrap(err))
+			if obs.Err == "" {
+				obs.Err = "Other"
+			}
+		}
+		for _, id := range ids {
+			obs.Keys = append(obs.Keys, idKey(id))
+		}
+		iacc, err := accessorOf(scheme, sc.Inline, nil)
+		if err != nil {
+			return nil, err
+		}
+		iids, err := objectdeployments.VerifObjectsIncludingSlices(context.Background(), iacc, sl)
+		if err != nil {
+			return nil, err
+		}
+		for _, id := range iids {
+			obs.Inline = append(obs.Inline, idKey(id))
+		}
+		return obs, nil
 	})
 }
